@@ -9,6 +9,57 @@ COMMON_TRUSTED = [
 ]
 
 PROPS = {
+    "C05": {
+        "coq_dir": "C05",
+        "coq_deps": ["Mgr"],
+        "model_files": ["Glue"],
+        "harness": "c05",
+        "cases": {"quick": 1500, "thorough": 40000},
+        "consts": [],
+        "rule": "adaptive seeded event histories (5-60 events quick, 10-120 thorough) against the real TransportManager with a scripted "
+                "transport: dial requests by peer and by address, address additions, open/negotiate outcomes, inbound connections "
+                "(ids drawn from the shared counter), accept futures, closures, limit configurations from {none,0,1,2,3}; 85% follow "
+                "the transport contract and end with a settle phase (all owed answers delivered, every peer re-dialled), 15% add "
+                "infeasible noise (unknown ids, failing transport calls, failing accepts). After every event the transport calls, "
+                "protocol notifications, manager events, return code and a dump of peer states / pending / counted sets are compared "
+                "with the extracted Coq model. Non-trivial: trace >= 8 numbers; distinct (case, trace) pairs are counted.",
+        "level_text": "Proof + translation validation: per-handler theorems about the manager's dial bookkeeping (re-dial is attempted, "
+                      "failure reports consume the pending attempt, a failed dial or a limit-rejected outbound connection leaves no dial "
+                      "record, panics need contradictory ids) hold for every state and configuration; the history-level ledger "
+                      "(exactly one outcome per attempt, no wedged peer at quiescence) is decided by the extracted oracle on the "
+                      "implementation's own traces over generated feasible histories; the model is tied to manager/mod.rs step by step.",
+        "level_note": "Trusted: Coq kernel, extraction, harness + ScriptedTransport hook. One transport (TCP) only; the address book is "
+                      "abstracted to 'has an address'; `.await` on full protocol channels inside the DialFailure fan-out is not modelled; "
+                      "the inductive ledger proof over all histories is not finished (stated in coq/C05/Properties.v).",
+        "trusted_base": [
+            "transport contract assumed for the feasible stream: open/dial/negotiate calls succeed, each is answered once unless cancelled, accept futures succeed (validated for TCP by reading tcp/mod.rs)",
+            "connection ids: inbound ids are drawn from the counter shared with the manager (AllocConn event / verif_alloc_connection_id hook)",
+        ],
+        "assumptions": ["single installed transport (default cargo features of the harness build)",
+                        "debug build: a reachable debug_assert!(false) shows up as a panic"],
+    },
+    "C06": {
+        "coq_dir": "C06",
+        "coq_deps": ["Mgr"],
+        "model_files": ["Glue"],
+        "harness": "c05",
+        "harness_extra": "--focus limits",
+        "cases": {"quick": 1500, "thorough": 40000},
+        "consts": [],
+        "rule": "same harness as C05 with the generator biased to small limits (1..3) so that the counted sets saturate; the oracle "
+                "recomputes the ledger of established connections from the events and the accept() calls the implementation made and "
+                "checks the per-peer bound, both maxima, 'accepted when below the limit' and 'rejection leaves established records "
+                "untouched' at every step. Non-trivial: trace >= 8 numbers; distinct (case, trace) pairs are counted.",
+        "level_text": "Proof: the cap invariant (every established connection is recorded in its peer's state, ids unique, counted sets "
+                      "= established connections of that direction, sizes within the configured maxima, accept futures consistent) is "
+                      "inductive over every event the manager handles, for every configuration incl. Some 0, under the stated uniqueness "
+                      "of connection ids; corollaries: at most two per peer, maxima never exceeded, no leaked slot, exact release, accept "
+                      "below the limit, rejection preserves established records, dial gate. Model tied to the code step by step.",
+        "level_note": "Trusted: Coq kernel, extraction, harness + ScriptedTransport hook. Environment assumption env_ok: an established "
+                      "connection never reuses a live id, a close notice names the owning peer and follows the accept future.",
+        "trusted_base": ["uniqueness of connection ids (one shared atomic counter in the code) is an assumption of the theorems (env_ok)"],
+        "assumptions": ["single installed transport", "usize counters do not wrap"],
+    },
     "C17": {
         "coq_dir": "C17",
         "harness": "c17",
